@@ -92,6 +92,10 @@ def _structured_h():
       (_g(17, 33, 'equiangular_with_poles'), _g(40, 8, 'gauss', 0.05)),
       (_g(64, 32), _g(96, 64, 'equiangular', 1.3)), (_g(96, 64, 'gauss', 0.7), _g(48, 24)),
       (_g(96, 48, 'equiangular'), _g(13, 64, 'gauss', 0.9)),
+      # equal numbers of latitude rows but different latitude spacing (no shortcut may key on counts)
+      (_g(16, 8, 'gauss'), _g(16, 8, 'equiangular')),
+      (_g(12, 9, 'equiangular', 0.2), _g(20, 9, 'equiangular_with_poles', 0.3)),
+      (_g(10, 6, 'equiangular_with_poles'), _g(10, 6, 'gauss', 1.1)),
   ]
   return out
 
@@ -159,7 +163,7 @@ def cases(tier, seed):
   # ---- horizontal
   pairs = [('structured', s, t) for s, t in _structured_h()]
   if quick:
-    pairs = pairs[:16] + pairs[19:21]
+    pairs = pairs[:16] + pairs[19:21] + pairs[-3:]
   for _ in range(12 if quick else 160):
     pairs.append(_rand_pair(rng))
   for i, (kind, s, t) in enumerate(pairs):
@@ -192,6 +196,9 @@ def cases(tier, seed):
     out.append(c)
     if i % 4 == 1:
       out.append({**c, 'id': 'v32-' + c['id'][1:], 'env': 'f32'})
+  for order in ('fwd', 'rev'):
+    out.append({'id': f'v-siblings-{order}', 'kind': 'v', 'hyb': 'siblings', 'order': order, 'nsig': 5,
+                'sig': 'uneven', 'nx': 3, 'ny': 2, 'sub': 4242, 'env': 'f64', 'cost': 3.0})
   # ---- vertical: direct weight matrices on random bound sets
   for i in range(4 if quick else 24):
     out.append({'id': f'vw{i}', 'kind': 'vw', 'n': 8 if quick else 12, 'env': 'f64' if i % 5 else 'f32',
@@ -542,11 +549,35 @@ def _make_sigma(kind, n, rng, hyb, approx_ok=True):
 
 
 def _run_v(case, M):
+  if case['hyb'] != 'siblings':
+    return _run_v_one(case, M)
+  # history monitor: level sets that share the layer count and the `a` coefficients (pure sigma
+  # sets, a = 0) but differ in `b`, regridded one after the other in the same process onto the same
+  # target with the same input shapes (so that every jit / memo keyed on too little is reused);
+  # each is judged by the ordinary oracles.  Both orders are separate cases.
+  from dinosaur import vertical_interpolation as vi  # pylint: disable=import-outside-toplevel
+  r = np.random.default_rng([case['sub'], 5])
+  n = 6
+  sets = []
+  for _ in range(3):
+    x = np.concatenate([[0.0], np.cumsum(np.exp(r.uniform(0, np.log(5.0), n)))])
+    sets.append(x / x[-1])
+  if case.get('order') == 'rev':
+    sets = sets[::-1]
+  for j, b in enumerate(sets):
+    hyb = vi.HybridCoordinates(a_boundaries=np.zeros(n + 1), b_boundaries=b)
+    _run_v_one(case, M, hyb_override=(hyb, 'full'))
+    M.cover('sibling_sequences', f"{case['id']}:{j}")
+
+
+def _run_v_one(case, M, hyb_override=None):
   from dinosaur import vertical_interpolation as vi  # pylint: disable=import-outside-toplevel
   f64 = M.env.startswith('f64')
   dt = np.float64 if f64 else np.float32
   rng = M.rng(case['sub'])
-  if case['hyb'] == 'synthetic':
+  if hyb_override is not None:
+    hyb, cls = hyb_override
+  elif case['hyb'] == 'synthetic':
     a, b, cls = _synthetic_hybrid(rng)
     hyb = vi.HybridCoordinates(a_boundaries=a, b_boundaries=b)
   else:
